@@ -39,12 +39,20 @@ def build(flavour):
 
 KEYS = [((), 'P0', ''), (('R0',), 'P0', ''), (('R0',), 'P1', ''), (('R1',), 'P2', ''),
         (('R0',), 'P0', 'n'), ((None,), 'P1', ''), (('R0', 'R1'), 'P0', ''),
-        (('R1',), 'P0', ''), (('R0', 'R1'), 'P1', 'n')]
+        (('R1',), 'P0', ''), (('R0', 'R1'), 'P1', 'n'), (('R0', 'R1'), 'P1', ''),
+        (('R1', 'R1'), 'P0', '')]
 
 
 def all_ops(cfg):
     keys = [KEYS[i] for i in cfg['keyidx']]
     ops = [('rebuild',)]
+    if cfg.get('only') == 'subscribers':
+        for k in keys:
+            for v in ('a', 'a2', 'b'):
+                ops.append(('sub', k, v))
+            for v in ('a', 'b', None):
+                ops.append(('unsub', k, v))
+        return ops
     for k in keys:
         for v in ('a', 'a2', 'b'):
             ops.append(('reg', k, v))
@@ -207,14 +215,23 @@ def run(ctx):
     quick = ctx.tier == 'quick'
     for impl in ('c', 'py'):
         for flavour in FLAVOURS:
+            # 'two-required': keys that share a two-level path of required
+            # interfaces (pruning of emptied branches); 'subscribers': only
+            # subscribe / unsubscribe / rebuild, deeper (several subscribers
+            # under one key, reference counts of provided interfaces)
             if quick:
-                plans = [([0, 1, 2, 3, 4, 5, 6], 2, 'seven-keys'), ([1, 2, 7], 3, 'three-keys')]
+                plans = [([0, 1, 2, 3, 4, 5, 6], 2, 'seven-keys', None), ([1, 2, 7], 3, 'three-keys', None),
+                         ([6, 9, 8], 3, 'two-required', None), ([1, 2], 4, 'subscribers', 'subscribers')]
             else:
-                plans = [([0, 1, 2, 3, 4, 5, 6, 7, 8], 3, 'nine-keys'), ([1, 2, 7], 4, 'three-keys')]
+                plans = [([0, 1, 2, 3, 4, 5, 6, 7, 8], 3, 'nine-keys', None), ([1, 2, 7], 4, 'three-keys', None),
+                         ([6, 9, 8, 10], 3, 'two-required', None), ([6, 9, 8], 4, 'two-required-deep', None),
+                         ([1, 2, 6], 5, 'subscribers', 'subscribers')]
             if quick and flavour == 'verifying' and impl == 'py':
-                plans = plans[:1]
-            for keyidx, depth, label in plans:
+                plans = plans[:1] + plans[2:]
+            for keyidx, depth, label, only in plans:
                 cfg = dict(flavour=flavour, keyidx=keyidx)
+                if only:
+                    cfg['only'] = only
                 r = bfs(ctx, impl, 'expand', cfg, int(ctx.opts.get('depth', depth)),
                         label='%s/%s' % (flavour, label))
                 ctx.add(states=r['states'], transitions=r['transitions'])
